@@ -18,7 +18,8 @@ REQUIRED_THEOREMS = ['OpusProps.C15.' + t for t in (
     'arch_range', 'arch_decision', 'dispatch_shape', 'dispatch_safe', 'float_kernels_fixed_below_avx2', 'vqWMatEC_sse_eq_c',
     'lanes_eq_seq_inner_prod', 'lanes_eq_seq_dual_inner_prod', 'lanes_eq_seq_xcorr_kernel',
     'lanes_eq_seq_pitch_xcorr', 'lanes_eq_seq_comb_filter', 'lanes_eq_seq_inner_product_flp',
-    'nsq_scale_states_sse_eq_c', 'vad_energy_sse_eq_c', 'sar_round_smulww_avx2_eq_c', 'pvq_search_relational')]
+    'nsq_scale_states_sse_eq_c', 'vad_energy_sse_eq_c', 'sar_round_smulww_avx2_eq_c', 'nsq_del_dec_avx2_lane_ops_eq_c', 'pvq_search_relational',
+    'pvq_presearch_contract_exact')]
 UNPROVED = [
     'nsq_del_dec_simd_eq_c: silk_NSQ_del_dec_sse4_1 / silk_NSQ_del_dec_avx2 return the same silk_nsq_state, indices and pulses as '
     'silk_NSQ_del_dec_c for every state the encoder can hand over (about 2000 lines of intrinsics; only silk_sar_round_smulww has a '
@@ -28,9 +29,10 @@ UNPROVED = [
     'not a theorem.',
     'vad_simd_eq_c: silk_VAD_GetSA_Q8_sse4_1 = silk_VAD_GetSA_Q8_c as whole functions (the only part that differs, the sub-frame '
     'energy loop, is proved equal; that the remaining text is identical is a fact of the source; S4 compares the whole functions).',
-    'pvq_contracts: the two contracts under which pvq_search_relational is proved are properties of float code and are not proved: '
+    'pvq_contracts: the two contracts under which pvq_search_relational is proved are properties of float code: '
     '(1) the pre-search never allocates more than K pulses (C: floor((K+0.8)/sum * X[j]); SSE2: cvttps of an _mm_rcp_ps-scaled '
-    'vector), (2) the arg-max never selects one of the three padding lanes (X = -100, y = 100). Their consequence (K pulses, signs, '
+    'vector) — proved in exact arithmetic over any ordered field with a relative-error margin eps*(5K+4) < 1 '
+    '(pvq_presearch_contract_exact); that binary32 rounding stays inside the margin is assumed, not proved; (2) the arg-max never selects one of the three padding lanes (X = -100, y = 100). Their consequence (K pulses, signs, '
     'yy) is what S4 checks on the compiled kernels; the quality of the SSE2 choices (rsqrt approximation) is checked against a '
     'calibrated margin only.',
     'float_error_bound: |SIMD - C| <= 2*gamma_n*sum|x_i*y_i| in IEEE binary32/64 arithmetic for the reduction kernels. The Lean '
@@ -52,6 +54,12 @@ RULE = ('exact domain, enumerated: every length 0..72 (thorough: 0..1100) for ce
         '(recorded through a macro hook) on random, loud, silent and injected extreme band signals (all -32768). A case is '
         'distinct by (operation, variant set, outcome class).')
 NOT_COVERED = [
+    'observation (no encoder state found that reaches it: 300 extreme-signal configurations, all live states): '
+    'silk_mm_srai_round_epi32(a, 4) of silk/x86/NSQ_del_dec_avx2.c:125,758 computes (a + 8) >> 4 with a wrapping add, the C kernel '
+    'silk_RSHIFT_ROUND(a, 4) = ((a >> 3) + 1) >> 1; they differ for a >= 2^31 - 8, and a = INT32_MAX is what the preceding '
+    'silk_mm_sub_sat_epi32 delivers when it saturates (compiled helper: -134217728, C macro: +134217728). Proposed patch: '
+    '_mm_srai_epi32(_mm_add_epi32(_mm_srai_epi32(a, bits - 1), _mm_set1_epi32(1)), 1). The lane tie compares the helper below '
+    'its wrap point only; the theorem states the precondition',
     'observation (dead code, not a violation): silk_noise_shape_quantizer_10_16_sse4_1 (silk/x86/NSQ_sse4_1.c:283-660, entered only for '
     'shapingLPCOrder=10 and predictLPCOrder=16) is not bit-exact with silk_NSQ_c — it feeds a stale local sDiff_shp_Q14 into the shaping '
     'filter — but silk_setup_complexity only selects orders 12,14,16,20,24, so no encoder input reaches it; the search probes it and '
@@ -140,6 +148,7 @@ def ties(ctx):
     out.append(common.run_tie('kernels-vqwmat-fullrange', [kp, 'vq', s, '1000' if q else '20000', '1']))
     out.append(common.run_tie('kernels-dispatch', [kp, 'dispatch']))
     out.append(common.run_tie('kernels-nsq-scale-states', [_nsq(ctx, 'san'), 'scale', s, '500' if q else '12000']))
+    out.append(common.run_tie('kernels-nsq-avx2-lanes', [_nsq(ctx, 'plain'), 'lanes', s, '3000' if q else '120000']))
     out.append(common.run_tie('kernels-nsq-helpers', [_nsq(ctx, 'plain'), 'helpers', s, '6000' if q else '200000']))
     out.append(common.run_tie('kernels-vad-energy', [_vad(ctx, 'san'), 'run', s, '250' if q else '8000']))
     out.append(common.run_tie('kernels-selectarch', [_arch(ctx), 'enum', s, '4000' if q else '300000']))
@@ -252,7 +261,7 @@ def classify(ctx, tie, mm):
             return None
         expected = 'every variant = c = %s' % c
         why = 'silk_VQ_WMat_EC: variant(s) %s are not bit-identical to the portable function' % ', '.join(bad)
-    elif op in ('nsqscale', 'vadnrg', 'sarround'):
+    elif op in ('nsqscale', 'vadnrg', 'sarround', 'lane'):
         if 'X-MISMATCH' in impl:
             return None
         vals = dict(p.split('=', 1) for p in impl.split(' ') if '=' in p)
@@ -263,7 +272,8 @@ def classify(ctx, tie, mm):
         expected = 'every variant = c = %s' % (c or '')[:300]
         why = ('%s: variant(s) %s are not bit-identical to the portable C code on this input'
                % ({'nsqscale': 'silk_nsq_scale_states', 'vadnrg': 'VAD sub-frame energy loop',
-                   'sarround': 'silk_sar_round_smulww'}[op], ', '.join(bad)))
+                   'sarround': 'silk_sar_round_smulww', 'lane': 'NSQ_del_dec_avx2.c lane helper ' + (toks[2] if len(toks) > 2 else '')}[op],
+                  ', '.join(bad)))
     elif op == 'selectarch':
         try:
             want = _arch_spec(toks)
@@ -336,6 +346,7 @@ def search(ctx):
     runs += [
         ('kernels-search', [_k(ctx, 'san'), 'search', s, '140000' if q else '4000000', ppm]),
         ('codec-wrapped', [_codec(ctx, 'plain'), 'wrap', s, '14' if q else '260', '2' if q else '4', '1' if q else '2']),
+        ('codec-wrapped-extreme', [_codec(ctx, 'plain'), 'wrapx', s, '8' if q else '300', '0', '1']),
         ('codec-wrapped-sanitizer', [_codec(ctx, 'san'), 'wrap', str(ctx.seed + 1000), '5' if q else '50', '0', '1']),
     ]
     if not q:
@@ -380,7 +391,7 @@ def replay(ctx, obj):
     bad = 0
     if lines:
         common.lake_build(['opusmodel'])
-        nsq = [l for l in lines if l.split(' ')[1] in ('nsqscale', 'invvarq', 'divvarq', 'sarround')]
+        nsq = [l for l in lines if l.split(' ')[1] in ('nsqscale', 'invvarq', 'divvarq', 'sarround', 'lane')]
         if nsq:
             rc, out = common.sh([_nsq(ctx, 'san'), 'stdin'], input='\n'.join(nsq) + '\n', env=env)
             impl = [l[2:] for l in out.split('\n') if l.startswith('O ')]
@@ -394,7 +405,7 @@ def replay(ctx, obj):
         if vadl:
             print('input: %s  (re-run by the whole check: `c15_vadnrg run`)' % vadl[0][:200])
             bad += common.run_tie('kernels-vad-energy', [_vad(ctx, 'san'), 'run', str(obj.get('seed', 1)), '250']).n_mismatch
-        ker = [l for l in lines if l.split(' ')[1] not in ('selectarch', 'dispatch', 'nsqscale', 'invvarq', 'divvarq', 'sarround', 'vadnrg')]
+        ker = [l for l in lines if l.split(' ')[1] not in ('selectarch', 'dispatch', 'nsqscale', 'invvarq', 'divvarq', 'sarround', 'lane', 'vadnrg')]
         if ker:
             rc, out = common.sh([_k(ctx, 'san'), 'stdin'], input='\n'.join(ker) + '\n', env=env)
             impl = [l[2:] for l in out.split('\n') if l.startswith('O ')]
